@@ -3,6 +3,7 @@ package props
 import (
 	"bytes"
 	"fmt"
+	"io"
 	"regexp"
 	"strconv"
 	"strings"
@@ -238,7 +239,7 @@ func checkC08(c *caseC08) (viol string, nontrivial bool, feats []string) {
 				}
 			}
 			// run: directly and after dump/load
-			for _, via := range []string{"direct", "dump+load", "disasm+trace", "twice"} {
+			for _, via := range []string{"direct", "dump+load", "disasm+trace", "twice", "after-other-parses"} {
 				var out, log bytes.Buffer
 				p, lerr, pan := loadProg(bytes.NewReader(e.dump), "n", optOut(&out), optLog(&log))
 				if pan != nil || lerr != nil {
@@ -262,6 +263,24 @@ func checkC08(c *caseC08) (viol string, nontrivial bool, feats []string) {
 					p, _ = bcl.Parse([]byte(c.Src), "n", optOut(&out), optLog(&log), bcl.OptDisasm(true))
 					out.Reset()
 					xopts = []bcl.Option{bcl.OptTrace(true)}
+				case "after-other-parses":
+					// the program object keeps its own line table whatever is
+					// parsed after it
+					if e.name != "Parse(whole)" {
+						continue
+					}
+					p, _ = bcl.Parse([]byte(c.Src), "n", optOut(&out), optLog(&log))
+					for _, other := range []string{"\n\n\n\nprint 1\n\n\n", "print )\n\n\nprint )\n", strings.Repeat("\n", 50) + "def x {\n}\n", "print 1"} {
+						bcl.Parse([]byte(other), "o", bcl.OptOutput(io.Discard), bcl.OptLogger(io.Discard))
+					}
+					if d2, pan2, err2 := dumpOf(p); pan2 != nil || err2 != nil || !bytes.Equal(d2, e.dump) {
+						f2, _ := bc.Decode(d2)
+						lfs := "?"
+						if f2 != nil {
+							lfs = clipInts(f2.LFs)
+						}
+						return fmt.Sprintf("after parsing other sources, the program's stored line table is %s, the newline offsets of its source are %s (dump changed: %v %v)", lfs, clipInts(m.nl), pan2, err2), false, feats
+					}
 				case "twice":
 					// a second run of the same program object
 					executeWith(p, &out, &log)
@@ -367,6 +386,7 @@ func genC08(t *rapid.T) *caseC08 {
 	cfg.MaxTop, cfg.MaxBody, cfg.MaxDepth, cfg.ExprDepth = 6, 4, 2, 3
 	cfg.Binds = true
 	cfg.PPar = 15
+	cfg.PPrelude = 0 // the runtime kind adds its own below
 	c.Kind = []string{"compile", "lexical", "runtime"}[gen.Weighted(t, "kind", 35, 20, 45)]
 	if c.Kind == "runtime" {
 		cfg.PWild = 35
@@ -388,6 +408,11 @@ func genC08(t *rapid.T) *caseC08 {
 			p = &gen.Prog{}
 			break
 		}
+	}
+	if c.Kind == "runtime" && gen.Chance(t, 8, "wideoperands") {
+		// hundreds of declarations in front: the failing instruction's operand
+		// (a slot or a constant index) needs two bytes, each with a position of its own
+		p = &gen.Prog{Stmts: append(gen.PreludeN(t, gen.Pick(t, "wideN", []int{236, 239, 240, 241, 242, 250, 345, 400})), p.Stmts...)}
 	}
 	toks := gen.RenderProg(p).Toks
 	switch c.Kind {
